@@ -32,6 +32,7 @@ VARIABLES
 vars == <<l, m, uni, kd, dgs, pre, base>>
 
 NoTree == [dg |-> "", sg |-> "", edg |-> ""]
+NoBase == [phase |-> 0, empty |-> 0]
 
 TraceInit ==
   /\ l = 1
@@ -40,7 +41,7 @@ TraceInit ==
   /\ kd = [t \in 1..MaxT |-> "none"]
   /\ dgs = [t \in 1..MaxT |-> NoTree]
   /\ pre = [m |-> <<>>, dg |-> "", sg |-> ""]
-  /\ base = [t \in 1..MaxT |-> 0]
+  /\ base = [t \in 1..MaxT |-> NoBase]
 
 MutOps   == {"Insert", "Delete"}
 QueryOps == {"Search", "All", "Backward", "Min", "Max", "TopK", "BottomK", "Range",
@@ -67,14 +68,14 @@ TraceNext ==
             /\ kd' = [t \in 1..MaxT |-> "none"]
             /\ dgs' = [t \in 1..MaxT |-> NoTree]
             /\ pre' = [m |-> <<>>, dg |-> "", sg |-> ""]
-            /\ base' = [t \in 1..MaxT |-> 0]
+            /\ base' = [t \in 1..MaxT |-> NoBase]
        [] e.op = "new" ->
             /\ m' = [m EXCEPT ![e.t] = EmptyMap(Len(e.u))]
             /\ uni' = [uni EXCEPT ![e.t] = e.u]
             /\ kd' = [kd EXCEPT ![e.t] = e.kind]
             /\ dgs' = [dgs EXCEPT ![e.t] = [dg |-> e.dg, sg |-> e.sg, edg |-> e.dg]]
             /\ pre' = [m |-> <<>>, dg |-> "", sg |-> ""]
-            /\ base' = [base EXCEPT ![e.t] = 0]
+            /\ base' = [base EXCEPT ![e.t] = NoBase]
        [] e.op = "clear" ->
             \* a fresh tree over the universe already declared for t
             /\ kd[e.t] # "none"
@@ -108,7 +109,8 @@ TraceNext ==
             /\ pre' = Snapshot(e.t)
             /\ UNCHANGED <<m, uni, kd, base>>
        [] e.op = "Checkpoint" ->
-            /\ base' = [base EXCEPT ![e.t] = IF e.first THEN e.heap ELSE @]
+            /\ base' = [base EXCEPT ![e.t] = [phase |-> IF e.first THEN e.heap ELSE @.phase,
+                                               empty |-> IF e.phase = "empty" THEN e.heap ELSE @.empty]]
             /\ pre' = Snapshot(e.t)
             /\ UNCHANGED <<m, uni, kd, dgs>>
        [] e.op \in {"GC", "Scribble", "Arena", "Note"} ->
@@ -246,13 +248,17 @@ C15(e) ==
   /\ (Good(e) /\ e.op = "Insert" /\ Has(PM, e.k)) => e.sg = pre.sg
 Inv_C15 == Each(C15)
 
-(* C17 - retained memory: growth since the phase baseline stays under the   *)
-(* slack plus a bound proportional to the growth of the content             *)
-Slack == 2097152
-PerByte == 64
+(* C17 - retained memory.  Checkpoints carry the live heap after two forced   *)
+(* collections.  Within a phase (queries / overwrites / churn at bounded     *)
+(* size) the heap may exceed the phase's first checkpoint by no more than    *)
+(* Slack; once every key has been deleted it may exceed the heap measured    *)
+(* before the first insertion by no more than EmptySlack.                    *)
+Slack == 524288
+EmptySlack == 524288
 Inv_C17 ==
   (Started /\ Cur.op = "Checkpoint" /\ ~Cur.first) =>
-     Cur.heap <= base[Cur.t] + Slack + PerByte * Cur.grown
+     IF Cur.phase = "emptied" THEN Cur.heap <= base[Cur.t].empty + EmptySlack
+     ELSE Cur.heap <= base[Cur.t].phase + Slack
 
 -----------------------------------------------------------------------------
 (* error traces print only the position (the trace file has the rest) *)
